@@ -432,8 +432,16 @@ func init() {
 				}
 			}
 		}
+		// (g) join predicates whose equality sides mix columns of both inputs, constants or nothing of one input
+		for _, jk := range []string{"JOIN", "LEFT JOIN", "LOOKUP JOIN"} {
+			for _, on := range []string{"l.a + r.a = r.a", "r.a = r.a + l.a", "l.a + r.a = l.a + r.a", "l.a = l.a", "r.a = 1", "1 = 1", "l.a = r.a AND l.a + r.a = 2", "l.a + 1 = r.a + 1",
+				"(l.a, r.a) = (r.a, l.a)", "l.b || r.b = r.b || l.b", "l.a = r.a OR l.a + r.a = r.a", "NOT (l.a + r.a = r.a)", "l.a IN (r.a, l.a + r.a)", "COALESCE(l.a, r.a) = r.a"} {
+				cases = append(cases, cs{"join-mixed-equality", fmt.Sprintf("SELECT * FROM %s l %s %s r ON %s", t, jk, t, on), "json"})
+			}
+			cases = append(cases, cs{"join-mixed-equality", fmt.Sprintf("SELECT * FROM %s l %s %s r ON TRUE WHERE r.a = r.a + l.a", t, jk, t), "json"})
+		}
 		r.Bound = map[string]interface{}{"seeds": len(seeds), "token_alphabet": len(c07Tokens), "cases": len(cases)}
-		r.Rule = "(a) the complete one-token edit neighbourhood (delete / replace / insert over a 45-token alphabet) of 8 (16) seed queries covering every grammar production used elsewhere (thorough: a two-edit neighbourhood too); (b) every function descriptor x all tuples of edge-value literals of its argument types rendered as SQL; (c) ~150 handwritten edge queries (TVF arguments, aggregates, join/WHERE oddities, LIMIT values, indexes, casts, files whose later rows disagree with the previewed schema, malformed statements); (d) every output mode x every value kind; (e) 102-row CSV and JSON files with one irregular row (12 CSV and 14 JSON kinds: short/long/empty rows, stray quotes, multi-line cells, NUL, invalid UTF-8, type flips, truncated or non-object JSON, duplicate keys, huge numbers) at row 0, 50 or 101, and CSV files with one of 10 irregular header lines (repeated, empty, missing, surplus, quoted, numeric names) x 6 queries reading all/first/last/no columns; (f) stacked GROUP BYs keyed by the event-time field over a watermarked source with repeated timestamps, every ordered pair of 6 trigger clauses x 3 shapes; each run through the real root command in-process; outcome must be output or a reported error, never a Go panic (main goroutine: recovered and recorded; other goroutine: worker crash); violations are confirmed on the real binary; non-trivial = case that gets past parsing and typechecking"
+		r.Rule = "(a) the complete one-token edit neighbourhood (delete / replace / insert over a 45-token alphabet) of 8 (16) seed queries covering every grammar production used elsewhere (thorough: a two-edit neighbourhood too); (b) every function descriptor x all tuples of edge-value literals of its argument types rendered as SQL; (c) ~150 handwritten edge queries (TVF arguments, aggregates, join/WHERE oddities, LIMIT values, indexes, casts, files whose later rows disagree with the previewed schema, malformed statements); (d) every output mode x every value kind; (e) 102-row CSV and JSON files with one irregular row (12 CSV and 14 JSON kinds: short/long/empty rows, stray quotes, multi-line cells, NUL, invalid UTF-8, type flips, truncated or non-object JSON, duplicate keys, huge numbers) at row 0, 50 or 101, and CSV files with one of 10 irregular header lines (repeated, empty, missing, surplus, quoted, numeric names) x 6 queries reading all/first/last/no columns; (f) stacked GROUP BYs keyed by the event-time field over a watermarked source with repeated timestamps, every ordered pair of 6 trigger clauses x 3 shapes; (g) 15 join predicates whose equality sides mix columns of both inputs, constants or one input only x JOIN / LEFT JOIN / LOOKUP JOIN; each run through the real root command in-process; outcome must be output or a reported error, never a Go panic (main goroutine: recovered and recorded; other goroutine: worker crash); violations are confirmed on the real binary; non-trivial = case that gets past parsing and typechecking"
 		r.Assume("huge repeat counts / ranges are excluded (memory, not panic)", "well-formed poll() queries are excluded: poll is an endless stream, not terminating is its specified behaviour", "a violation is identified by the top octosql stack frame of the panic and its message with numbers masked")
 		enum.Parallel(len(cases), func(i int) {
 			if r.TimeUp() {
